@@ -23,7 +23,9 @@ NUM_LITS = [0, 1, 2, 7, 10, 100, 1000, 2**31 - 1]
 WORDS = ["acked", "rtt", "loss", "minrtt", "rate", "cwndcap", "sacked", "timeout", "ecn", "inflight", "now", "delta",
          "alpha", "beta", "gain", "x", "y", "z", "foo", "bar", "baz", "qux", "a1", "b_2", "c.d", "Val", "MAXV", "n0",
          # names that merely resemble keywords / qualifiers (ordinary variables: the qualifier is "Report." with the dot)
-         "Reports", "ReportInterval", "Reporter", "report_n", "def1", "when2", "Flowx", "Ackx", "Micros2", "Cwnd_", "Ratex", "iff", "ewma2"]
+         "Reports", "ReportInterval", "Reporter", "report_n", "def1", "when2", "Flowx", "Ackx", "Micros2", "Cwnd_", "Ratex", "iff", "ewma2",
+         # punctuation inside identifiers (only a LEADING double underscore is reserved)
+         "min__rtt", "ab__", "a___b", "x_", "a.b.c", "loss__cnt", "_u", "k_9"]
 
 
 def fresh_names(rng, k, taken):
@@ -455,6 +457,10 @@ def semantic_corner_programs():
         out.append("(def (Report (x 0)) %s) (when (&& %s true) (:= Report.x (+ Report.x 1)) (:= %s false) (report))" % (decl, nm, nm))
         out.append("(def (Report (x 0)) %s) (when true (:= %s (> Ack.bytes_acked 5)) (fallthrough)) (when (|| %s false) (:= Report.x 7) (report))" % (decl, nm, nm))
         out.append("(def (Report (x 0)) %s) (when (|| %s false) (:= Report.x (+ Report.x 100)) (:= %s false) (report)) (when true (:= Report.x (+ Report.x 1)) (:= %s true) (report))" % (decl, nm, nm, nm))
+    # F11 regression shapes: a local first bound to a never-assigned name, then bound again (each must keep its own register)
+    out.append("(def (Report (acked 0)) (c 0)) (when true (:= x y) (:= x 3) (:= Report.acked x) (report))")
+    out.append("(def (Report (a 0) (b 0))) (when true (bind p q) (bind p 5) (bind q 6) (:= Report.a p) (:= Report.b q) (report))")
+    out.append("(def (Report (a 0))) (when true (:= p q) (:= r p) (:= p 1) (:= r 2) (:= q 3) (:= Report.a (+ (+ p r) q)) (report))")
     for lit in (2**31 - 1, 2**31, 2**32 - 1, 2**32, 2**33 - 1, 2**40, 2**40 - 1, 2**63 - 1, 2**63, 2**64 - 2, 2**64 - 1, 2**64, 3 * 2**32 + 0xffffffff):
         out.append("(def (Report (x 0))) (when true (:= Report.x %d) (report))" % lit)
         out.append("(def (Report (x %d))) (when true (report))" % lit)
